@@ -113,7 +113,17 @@ func c19run(env *core.Env, idx int) core.CaseResult {
 	for pi, p := range ps {
 		for _, opt := range impls {
 			before := st
-			issues := blobprog.Exec(p, opt, &st)
+			var issues []blobprog.Issue
+			// the whole program runs under a watchdog: a call that returns with the blob's mutex still held parks the NEXT call
+			// on that blob (or on a view sharing the mutex) for good
+			if hung, confirmed := withWatchdog(func() { issues = blobprog.Exec(p, opt, &st) }); hung {
+				if confirmed {
+					res.Violate("C19|"+opt.Impl+"|program|got=hang,want=returns", fmt.Sprintf("program %s did not finish: the goroutine dump shows a blob call parked in sync.Mutex.Lock (an earlier call of the program returned without releasing the blob's mutex)", p), p)
+				} else {
+					res.Inconclusive = "a blob program did not finish, no blocked-state witness"
+				}
+				return res
+			}
 			for _, is := range issues {
 				res.Violate(is.Sig, is.Detail, p)
 			}
